@@ -371,6 +371,7 @@ def run_check(modname, tier, seed, procs=None):
     jobs = [(modname, i, shards[i], tier, seed) for i in order]
     procs = procs or int(os.environ.get("VERIF_PROCS", "16"))
     results = []
+    env_pending = start_environments(mod, modname, tier, seed)  # (fresh interpreters, running beside the pool)
     pre = getattr(mod, "explore", None)
     pre_acc = None
     if pre is not None:
@@ -393,7 +394,7 @@ def run_check(modname, tier, seed, procs=None):
         acc.merge(pre_acc)
     for _, a in results:
         acc.merge(a)
-    env_info = run_environments(mod, modname, tier, seed, acc)
+    env_info = finish_environments(env_pending, acc)
 
     known = load_known()
     reported = []
@@ -544,7 +545,7 @@ def _run_one_environment(args):
             pass
 
 
-def run_environments(mod, modname, tier, seed, acc):
+def start_environments(mod, modname, tier, seed):
     """A check may name some of its shards ENV_SHARDS(tier) - its broad, cheap families.  Those are run again, each in a
     fresh interpreter per environment of ENVIRONMENTS (hash seeds, a C locale without UTF-8 mode, another import order,
     other collector settings, python -O): the same oracles judge every case there.  A violation found there carries the
@@ -558,9 +559,17 @@ def run_environments(mod, modname, tier, seed, acc):
     from concurrent.futures import ThreadPoolExecutor
 
     jobs = [(modname, tier, seed, shards, e) for e in ENVIRONMENTS]
-    with ThreadPoolExecutor(len(jobs)) as ex:
-        results = list(ex.map(_run_one_environment, jobs))
-    info = {"shards_per_environment": len(shards), "environments": [e[0] for e in ENVIRONMENTS], "cases_per_environment": {}}
+    ex = ThreadPoolExecutor(len(jobs))
+    return ex, [ex.submit(_run_one_environment, j) for j in jobs], len(shards)
+
+
+def finish_environments(pending, acc):
+    if pending is None:
+        return None
+    ex, futures, nshards = pending
+    results = [f.result() for f in futures]
+    ex.shutdown()
+    info = {"shards_per_environment": nshards, "environments": [e[0] for e in ENVIRONMENTS], "cases_per_environment": {}}
     for (label, accs, err), envspec in zip(results, ENVIRONMENTS):
         if accs is None:
             acc.harness_error(f"environment {label!r}: {err}")
